@@ -128,9 +128,30 @@ int evutil_read_file_(const char *filename, char **content_out, size_t *len_out,
 #define C39_N 12
 #endif
 
+#ifdef C39_FRONT
+#define C39_FREE(s, n, len) free(s)
+#else
+#define C39_FREE(s, n, len) free((s) - ((n) - (len)))
+#endif
 /* symbolic NUL-terminated string of length 0..n at the end of an exact object of n+1 bytes */
 static char *c39_string(size_t n, size_t *lenp)
 {
+#ifdef C39_FRONT
+	/* variant: the string starts at the beginning of the object (reads in front of it leave the object; concrete
+	 * offsets, much cheaper); over-reads behind the terminator are only seen when len == n */
+	char *fobj = malloc(n + 1);
+	size_t flen = (size_t)vp_range(0, n), fi;
+	__CPROVER_assume(fobj != NULL);
+	for (fi = 0; fi < n; fi++) {
+		unsigned long long v = vp_input();
+		fobj[fi] = *(char *)&v;
+		if (fi < flen) __CPROVER_assume(fobj[fi] != 0);
+		if (fi == flen) fobj[fi] = 0;
+	}
+	fobj[n] = 0;
+	if (lenp) *lenp = flen;
+	return fobj;
+#endif
 	char *obj = malloc(n + 1);
 	size_t len = (size_t)vp_range(0, n), i;
 	__CPROVER_assume(obj != NULL);
@@ -148,10 +169,10 @@ static char *c39_string(size_t n, size_t *lenp)
 /* predicate of finding KF-C39-int-wrap: the decimal magnitude does not fit an int */
 static int c39_int_out_of_range(const char *s)
 {
-	size_t i = 0; int neg = 0; unsigned long long v = 0;
+	size_t i = 0; int neg = 0, nd = 0; unsigned long long v = 0;
 	while (dcr_isspace(s[i])) i++;
 	if (s[i] == '+' || s[i] == '-') { neg = s[i] == '-'; i++; }
-	while (s[i] >= '0' && s[i] <= '9') { if (v < (1ULL << 40)) v = v * 10 + (unsigned)(s[i] - '0'); i++; }
+	while (s[i] >= '0' && s[i] <= '9') { if (nd < 15) v = v * 10 + (unsigned)(s[i] - '0'); else v = 1ULL << 60; i++; nd++; }
 	return neg ? v > 2147483648ULL : v > 2147483647ULL;
 }
 static void c39_kf_int(const char *s)
@@ -185,7 +206,7 @@ void harness_int(void)
 		if (want < 0) VP_WITNESS("C39 int: negative value parsed");
 		if (len == 0) VP_WITNESS("C39 int: empty value reads as 0");
 	}
-	free(s - (C39_N - len));
+	C39_FREE(s, C39_N, len);
 }
 
 /* ------------------------------------------------------------------ (2) */
